@@ -185,6 +185,19 @@ func PathCondsE(fn *ssa.Function) (map[*ssa.BasicBlock]DNF, map[Edge]DNF, bool) 
 		if !isIf || p.Succs[0] == p.Succs[1] {
 			return pc
 		}
+		// a constant condition (a helper expanded with a literal flag argument)
+		if cv, cneg := BoolCond(iff.Cond); cv != nil {
+			if cst, isC := cv.(*ssa.Const); isC && cst.Value != nil {
+				val := cst.Value.String() == "true"
+				if cneg {
+					val = !val
+				}
+				if val == (p.Succs[0] == b) {
+					return pc
+				}
+				return nil
+			}
+		}
 		// a nil test of a phi (the result variable of an expanded helper, `x := f(); if x != nil`
 		// after expansion): per incoming edge of the phi the outcome is known, or is the nil-ness
 		// of that edge's operand
